@@ -106,7 +106,7 @@ Qed.
 (** ** progress conditions *)
 Definition strict {A} (base : nat) : A -> nat -> Prop := fun _ off => (base < off)%nat.
 Definition strictIf (base : nat) : bool -> nat -> Prop := fun b off => (base <= off)%nat /\ (b = true -> (base < off)%nat).
-Definition anyP {A} : A -> nat -> Prop := fun _ _ => True.
+Definition geP {A} (base : nat) : A -> nat -> Prop := fun _ off => (base <= off)%nat.
 Definition someStrict (base : nat) : option N -> nat -> Prop := fun r off => (base <= off)%nat /\ (r <> None -> (base < off)%nat).
 
 (** ** automation *)
@@ -118,8 +118,8 @@ Ltac f_norm := repeat match goal with
   | H : None <> None -> _ |- _ => clear H
   | H : _ /\ _ |- _ => destruct H
   end.
-Ltac f_lia := f_norm; unfold strict, strictIf, someStrict, anyP in *; f_norm; lia.
-Ltac f_leaf := cbn [F]; split; [assumption|split; [f_lia|f_norm; unfold strict, strictIf, someStrict, anyP in *; f_norm; first [exact I|lia|split; [lia|intros; first [discriminate|congruence|lia]]]]].
+Ltac f_lia := f_norm; unfold strict, strictIf, someStrict, geP in *; f_norm; lia.
+Ltac f_leaf := cbn [F]; split; [assumption|split; [f_lia|f_norm; unfold strict, strictIf, someStrict, geP in *; f_norm; first [exact I|lia|split; [lia|intros; first [discriminate|congruence|lia]]]]].
 Ltac f_call := fail.
 Ltac f_step :=
   match goal with
@@ -182,10 +182,10 @@ Ltac f_mu it :=
 
 (** every function below: "enough fuel for the remaining tokens => not out of fuel, and progress" *)
 Lemma parseModifiers_F fuel : forall lo it o, valid it -> (lo <= i_off it)%nat -> (mu it + 1 <= fuel)%nat ->
-  F lo anyP (parseModifiers fuel it o).
+  F lo (geP (i_off it)) (parseModifiers fuel it o).
 Proof.
   induction fuel; intros lo it o V L Hf; [lia|]. cbn [parseModifiers]. f_go.
-  apply IHfuel; [assumption|f_lia|f_mu it].
+  eapply F_conseq; [apply (IHfuel lo); [assumption|f_lia|f_mu it]|lia|intros; f_lia].
 Qed.
 
 Lemma parseConstructor_F lo it o ab : valid it -> (lo <= i_off it)%nat -> F lo (strict (i_off it)) (parseConstructor it o ab).
@@ -224,28 +224,28 @@ Proof.
 Qed.
 
 Lemma parseTemplateArguments_F fuel : forall lo it o, valid it -> (lo <= i_off it)%nat -> (mu it + 1 <= fuel)%nat ->
-  F lo anyP (parseTemplateArguments fuel it o).
+  F lo (geP (i_off it)) (parseTemplateArguments fuel it o).
 Proof.
   induction fuel; intros lo it o V L Hf; [lia|]. cbn [parseTemplateArguments].
   f_step; [apply parseTemplateArgument_F; assumption|]. f_step; [|f_go].
-  apply IHfuel; [assumption|f_lia|f_mu it].
+  eapply F_conseq; [apply (IHfuel lo); [assumption|f_lia|f_mu it]|lia|intros; f_lia].
 Qed.
 
 Lemma typeDeclArgs_F fuel : forall lo it o, valid it -> (lo <= i_off it)%nat -> (mu it + 1 <= fuel)%nat ->
-  F lo anyP (typeDeclArgs fuel it o).
+  F lo (geP (i_off it)) (typeDeclArgs fuel it o).
 Proof.
   induction fuel; intros lo it o V L Hf; [lia|]. cbn [typeDeclArgs].
   f_step. pose proof (parseVarIdent_F lo it' o H ltac:(lia)) as HF.
   destruct (parseVarIdent it' o) as [a r'|e| |]; cbn [F] in HF; [| |exact I|contradiction].
-  - destruct HF as (Vr & Lr & Hs). f_step. apply IHfuel; [assumption|f_lia|f_mu it].
+  - destruct HF as (Vr & Lr & Hs). f_step. eapply F_conseq; [apply (IHfuel lo); [assumption|f_lia|f_mu it]|lia|intros; f_lia].
   - f_go.
 Qed.
 
 Lemma parseTypeDeclaration_F fuel lo it o : valid it -> (lo <= i_off it)%nat -> (mu it + 1 <= fuel)%nat ->
-  F lo anyP (parseTypeDeclaration fuel it o).
+  F lo (geP (i_off it)) (parseTypeDeclaration fuel it o).
 Proof.
   intros V L Hf. unfold parseTypeDeclaration. f_step. f_step; [f_call|]. f_step.
-  apply typeDeclArgs_F; [assumption|f_lia|f_mu it].
+  eapply F_conseq; [apply (typeDeclArgs_F fuel lo); [assumption|f_lia|f_mu it]|lia|intros; f_lia].
 Qed.
 
 (** arithmetic: every recursive call comes after a consumed token *)
@@ -284,7 +284,7 @@ Proof.
   - f_step; [apply (proj1 (parseArithmetic_F fuel)); [assumption|f_lia|f_mu it]|]. destruct a; f_go.
 Qed.
 
-Lemma parseFieldMask_F lo it o : valid it -> (lo <= i_off it)%nat -> F lo anyP (parseFieldMask it o).
+Lemma parseFieldMask_F lo it o : valid it -> (lo <= i_off it)%nat -> F lo (geP (i_off it)) (parseFieldMask it o).
 Proof.
   intros V L. unfold parseFieldMask. f_step.
   pose proof (parseVarIdent_F lo it' o H ltac:(lia)) as HF.
@@ -406,7 +406,7 @@ Proof.
   f_step; [apply parseModifiers_F; [assumption|f_lia|f_mu it]|].
   f_step; [apply parseConstructor_F; [assumption|f_lia]|].
   f_step. f_step; [apply parseTemplateArguments_F; [assumption|f_lia|f_mu it]|]. f_step. cbv zeta.
-  assert (Htail : forall isF' r, valid r -> (i_off it < i_off r)%nat ->
+  assert (Htail : forall (isF' : bool) (r : iter), valid r -> (i_off it < i_off r)%nat ->
             F (i_off it) (strict (A := unit) (i_off it))
               (bind (if isF' then parseFuncDecl fuel r (t_pos t0) else parseTypeDeclaration fuel r (t_pos t0)) (fun _ rest =>
                expc (ty_chr tk_semiColon) rest (fun b rest =>
@@ -420,14 +420,14 @@ Proof.
     { destruct isF'.
       - eapply F_conseq; [apply (parseFuncDecl_F fuel (i_off it)); [assumption|f_lia|f_mu it]|lia|]. intros ? ? ? HH. exact HH.
       - eapply F_conseq; [apply (parseTypeDeclaration_F fuel (i_off it)); [assumption|f_lia|f_mu it]|lia|].
-        intros. instantiate (1 := fun _ off => (i_off r <= off)%nat \/ True). right. exact I. }
+        intros ? ? ? HH. exact HH. }
     f_step. f_step; [|f_go]. cbv zeta.
     match goal with Vr' : valid ?x |- F _ _ (let '(_, _) := skipToNewline ?x in _) =>
       destruct (skipToNewline_spec s ts Hwf x Vr') as (V' & L' & W'); destruct (skipToNewline x) as [nl r2]; cbn [snd] in *
     end.
     match goal with |- F _ _ (if ?c then _ else _) => destruct c end; [exact I|]. f_go. }
   f_step. f_step.
-  - f_step; [f_go|]. f_step. f_step. f_step; [|f_go]. apply Htail; [assumption|f_lia].
+  - f_step; [f_go|]. f_step. f_step. f_step; [|f_go]. apply (Htail false); [assumption|f_lia].
   - f_step; [apply (proj2 (proj2 (fields_F fuel))); [assumption|f_lia|f_mu it|noteof|noteof]|].
     apply Htail; [assumption|f_lia].
 Qed.
